@@ -124,6 +124,9 @@ def run_tlc_once(module, cfg, *, workers=16, env=None, timeout=1800, coverage=Fa
         m = _RE_ACT.search(out)
         if m and not res.violated:
             res.violated = m.group(1)
+        m = re.search(r"Error: Temporal property (\S+) was violated", out)
+        if m and not res.violated:
+            res.violated = m.group(1)
         if "Temporal properties were violated" in out and not res.violated:
             res.violated = "temporal"
         if "Deadlock reached" in out and not res.violated:
